@@ -75,10 +75,12 @@ class BaseTranslateFilter:
                 for k in self.re_vars.findall(message_text)
             }
 
-        # Missing variables get replaced by the current `Undefined` type and we're
-        # converting all values to a string, so a KeyError or a ValueError should
-        # be impossible.
-        return message_text % _vars
+        # Only named `%(name)s` placeholders are message variables. Everything
+        # else, including literal percent signs, is message text and is left alone,
+        # so we substitute rather than use printf-style formatting. Missing
+        # variables have been replaced by the current `Undefined` type.
+        text = self.re_vars.sub(lambda match: _vars[match.group(1)], message_text)
+        return Markup(text) if isinstance(message_text, Markup) else text
 
     def _resolve_translations(self, context: RenderContext) -> Translations:
         return cast(
